@@ -306,9 +306,19 @@ class Engine:
         self.decided = {}
         self.last_cex = None
         self.known_reps = {}
+        self.lazy = []
 
     # -- solver access
+    def _add(self, e):
+        self.lazy.append(e)
+
+    def _flush(self):
+        if self.lazy:
+            self.solver.add(*self.lazy)
+            self.lazy = []
+
     def _check(self):
+        self._flush()
         t0 = _perf()
         r = self.solver.check()
         self.solver_s += _perf() - t0
@@ -318,6 +328,7 @@ class Engine:
         return r == z3.sat
 
     def _check_with(self, expr):
+        self._flush()
         self.solver.push()
         try:
             self.solver.add(expr)
@@ -359,7 +370,7 @@ class Engine:
                 taken, other = (not first), False
         self.pos += 1
         self.trail.append([taken, other, _key(expr) if depth < 24 else None])
-        self.solver.add(expr if taken else z3.Not(expr))
+        self._add(expr if taken else z3.Not(expr))
         self.decided[eid] = (taken, expr)       # keeps the ast alive, hence its id unique
         return taken
 
@@ -373,9 +384,9 @@ class Engine:
         self.decls[name] = v
         self.kinds[name] = "int"
         if lo is not None:
-            self.solver.add(v >= lo)
+            self._add(v >= lo)
         if hi is not None:
-            self.solver.add(v <= hi)
+            self._add(v <= hi)
         return SInt(v)
 
     def bool(self, name):
@@ -386,19 +397,42 @@ class Engine:
         self.kinds[name] = "bool"
         return SBool(v)
 
+    def _decide_fresh(self, expr):
+        """decision on a symbol declared just now: no earlier constraint can mention it, so both sides are
+        feasible whenever the path is -- no solver query needed"""
+        depth = self.pos
+        if depth < len(self.prefix):
+            ent = self.prefix[depth]
+            taken, other = ent[0], ent[1]
+        else:
+            if self.cut_depth is not None and depth >= self.cut_depth:
+                raise PathAbort("cut")
+            taken, other = True, True
+            if self.seed and ((self.seed * 2654435761 + depth * 40503) >> 7) & 1:
+                taken = False
+        self.pos += 1
+        self.trail.append([taken, other, None])
+        self._add(expr if taken else z3.Not(expr))
+        return taken
+
     def flag(self, name):
-        """a boolean decided right away (the harness needs a concrete value)"""
-        return bool(self.bool(name))
+        """a fresh boolean decided right away (the harness needs a concrete value)"""
+        b = self.bool(name)
+        return self._decide_fresh(b.e)
 
     def choice(self, name, k):
-        """a small integer in [0,k) decided right away"""
+        """a fresh small integer in [0,k) decided right away"""
         if k <= 1:
             return 0
         v = self.int(name, 0, k - 1)
-        for i in range(k - 1):
-            if v == i:
-                return i
-        return k - 1
+        lo, hi = 0, k - 1
+        while lo < hi:                      # binary case split: log2(k) decisions, all sides feasible
+            mid = (lo + hi) // 2
+            if self._decide_fresh(v.e <= mid):
+                hi = mid
+            else:
+                lo = mid + 1
+        return lo
 
     def assume(self, cond):
         if not is_sym(cond):
@@ -408,7 +442,7 @@ class Engine:
         e = z3.simplify(_be(cond))
         if z3.is_true(e):
             return
-        self.solver.add(e)
+        self._add(e)
         if z3.is_false(e) or not self._check():
             raise PathAbort("infeasible")
 
@@ -422,6 +456,7 @@ class Engine:
         e = z3.simplify(_be(cond))
         if z3.is_true(e):
             return
+        self._flush()
         self.solver.push()
         self.solver.add(z3.Not(e))
         try:
@@ -484,6 +519,7 @@ class Engine:
         self.last_cex = None
 
     def path_condition(self, limit=40):
+        self._flush()
         return [str(a) for a in self.solver.assertions()[:limit]]
 
 
@@ -591,6 +627,12 @@ def run_path(harness, eng, allowed=()):
     try:
         try:
             harness(eng)
+            if eng.queries == 0 and eng.trail:
+                # a path made of decisions on fresh symbols only is feasible by construction (no query was
+                # needed); audit that argument with the solver on one such path out of 16
+                _fresh[0] += 1
+                if _fresh[0] % 16 == 1 and not eng._check():
+                    raise PathAbort("infeasible")
         except Violation as v:
             res.outcome = "violation"
             res.what, res.detail = v.what, v.detail
@@ -650,6 +692,7 @@ class ExploreStats:
 
 
 _frozen = [False]
+_fresh = [0]
 
 
 def explore(harness, fixed_prefix=(), cut_depth=None, budget_s=None, seed=0,
